@@ -244,12 +244,17 @@ def cli_phase(ctx, texts, sigs):
         with open(pth, 'w', encoding='ascii', newline='') as fd:
             fd.write(t)
         paths.append(pth)
-    p = subprocess.run([sys.executable, '-m', 'pyx12.scripts.x12valid', '-q'] + paths, stdout=subprocess.PIPE, stderr=subprocess.PIPE,
+    # the options that reach the validator: none, an excluded external code set, an explicit map directory
+    from vlib import refmap
+    which = (ctx.counters.get('cli:invocations', 0) + ctx.shard) % 3
+    opts, kw = [([], {}), (['-x', 'states', '-x', 'entity_id'], {'exclude_external': 'states,entity_id'}), (['-m', refmap.MAPDIR], {'map_path': refmap.MAPDIR})][which]
+    p = subprocess.run([sys.executable, '-m', 'pyx12.scripts.x12valid', '-q'] + opts + paths, stdout=subprocess.PIPE, stderr=subprocess.PIPE,
                        env=dict(os.environ, PYTHONWARNINGS='ignore'), timeout=300, cwd=d)
     ctx.count('cli:invocations')
+    ctx.count('cli:options:' + (opts[0] if opts else 'none'))
     for i, (t, pth) in enumerate(zip(texts, paths)):
-        case = {'cli': True, 'file_index': i, 'files': len(texts), 'text': t if len(t) < 60000 else None}
-        res = pipeline.validate(t, charset='E')
+        case = {'cli': True, 'options': opts, 'file_index': i, 'files': len(texts), 'text': t if len(t) < 60000 else None}
+        res = pipeline.validate(t, charset='E', **kw)
         if res.exc is not None:
             continue
         out = pth + '.997'
